@@ -120,6 +120,7 @@ partial def loop (h : IO.FS.Stream) (out : IO.FS.Stream) (d : DSt) : IO Unit := 
   let ws := (line.trimAscii.toString.splitOn " ").filter (· ≠ "")
   let (d', s) := handle d ws
   out.putStrLn s
+  out.flush
   loop h out d'
 
 def main : IO Unit := do
